@@ -92,6 +92,48 @@ def analyse_unit(unit, extra):
             else:
                 inst("R-C14-eqvol", err is None, "radius_effective", "mode %d %r: 4/3 pi R^3 = form_volume(%s)" % (i, name, ", ".join(fv_p)),
                      line, err or "normal forms agree", file=file)
+    # ---- prefactor: the factor on <F^2> is the square of the factor on <F>, up to a pure number ------------
+    if unit.meta.get("have_Fq") and "Fq" in unit.functions and unit.body(unit.fn("Fq")) is not None:
+        fq = unit.fn("Fq")
+        file, line = unit.where(fq)
+        pn = [p["name"] for p in unit.params(fq)]
+        outs = {}
+        argv = []
+        for i, p in enumerate(unit.params(fq)):
+            qt = p["type"]["qualType"]
+            if i in (1, 2):
+                argv.append(nf.Ref(outs, "F1" if i == 1 else "F2"))
+            elif "*" in qt or "[" in qt:
+                argv.append(sym("vec_" + p["name"]))
+            else:
+                argv.append(sym(p["name"]))
+        try:
+            it = CInterp(unit.functions, opaque_loops=True, opaque=tuple(
+                f for f in unit.functions if f not in ("Fq", "square", "cube") and unit.body(unit.functions[f]) is not None))
+            it.call("Fq", argv)
+            E1, E2 = outs.get("F1"), outs.get("F2")
+            if E1 is None or E2 is None:
+                raise AnalysisError("stores to *F1/*F2 not reached")
+            accs1 = [a for a in E1.free_symbols if a.name.startswith("acc_")]
+            accs2 = [a for a in E2.free_symbols if a.name.startswith("acc_")]
+            if len(accs1) == 1 and len(accs2) == 1 and accs1 != accs2:
+                a = sp.simplify(E1 / accs1[0])
+                b = sp.simplify(E2 / accs2[0])
+                clean = not (a.free_symbols | b.free_symbols) & set(accs1 + accs2)
+                ratio = sp.simplify(nf.canon(b / a ** 2)) if clean else None
+                how = "F1 = (%s)*%s, F2 = (%s)*%s" % (a, accs1[0], b, accs2[0])
+            else:
+                ratio = sp.simplify(nf.canon(E2 / E1 ** 2))
+                clean = True
+                how = "F2/F1^2"
+            ok = clean and ratio is not None and not ratio.free_symbols
+            inst("R-C14-prefactor", ok, "Fq", "prefactor(F2) / prefactor(F1)^2 = %s" % (ratio if ratio is not None else "?"), line,
+                 "%s: a pure number, so <F>^2 <= <F^2> cannot be upset by a parameter-dependent factor" % how if ok else
+                 "%s: the factor applied to <F^2> is not the square of the factor applied to <F> (ratio depends on %s); "
+                 "for some q and parameters <F>^2 exceeds <F^2>" % (how, sorted(str(x) for x in (ratio.free_symbols if ratio is not None else []))),
+                 file=file)
+        except AnalysisError as exc:
+            out.append(("R-C14-prefactor", "note", file, "Fq", "prefactor relation not evaluated", line, str(exc)))
     # ---- interleave (writer side) -------------------------------------------
     if unit.meta.get("have_Fq"):
         k = Kernel(unit, "Iq")
@@ -170,6 +212,7 @@ def rule_reader(r):
 RULES = [
     ("R-C14-modes", 55, "mode list <-> case labels", make_c_rule("R-C14-modes")),
     ("R-C14-eqvol", 15, "equivalent volume sphere = cbrt(V_form / (4 pi/3))", make_c_rule("R-C14-eqvol")),
+    ("R-C14-prefactor", 20, "factor on <F^2> = square of the factor on <F>, up to a constant", make_c_rule("R-C14-prefactor")),
     ("R-C14-interleave", 60, "F^2,F interleave on the writer side", make_c_rule("R-C14-interleave")),
     ("R-C14-reader", 30, "reader side, Iq uses the reported volume", rule_reader),
 ]
